@@ -229,13 +229,16 @@ func (m *observerManager) RemoveObserver(o *Observer) {
 	observers := m.observers[o.event]
 	observers[idx].id = maxObserverID
 
+	// Copy on write: an observer may be unregistered from inside a callback, i.e. while
+	// an event of this type is being dispatched over the current slice.
 	last := uint32(len(observers) - 1)
+	remaining := make([]*observerData, last, len(observers))
+	copy(remaining, observers[:last])
 	if idx != last {
-		observers[idx], observers[last] = observers[last], observers[idx]
-		m.indices[observers[idx].id] = idx
+		remaining[idx] = observers[last]
+		m.indices[remaining[idx].id] = idx
 	}
-	observers[last] = nil
-	m.observers[o.event] = observers[:last]
+	m.observers[o.event] = remaining
 	m.hasObservers[o.event] = last > 0
 	m.totalCount--
 
